@@ -10,7 +10,7 @@
      tuples the map argument with the outcomes of the function GenerateWithMap produced, optimizer off and on.
    The parser's ASTs are written with the constructors of Syn/Ast.v under the names X... (Sem/Syntax.v has
    constructors of the same names). *)
-From P2 Require Import Base.Prelude Lex.Token Sem.Num Sem.Syntax Sem.Obs Run.C01Run.
+From P2 Require Import Base.Prelude Lex.Token Sem.Num Sem.Syntax Sem.Ref Sem.Obs Generated.ValueCfg Run.C01Run.
 From P2 Require Syn.Ast Syn.Parse Run.C03Run.
 Local Open Scope N_scope.
 
@@ -41,7 +41,9 @@ Record c16_in := mkQ {
   q_toks2 : list (N * str);
   q_T : ast;                        (* qualified surface tree (reference semantics) *)
   q_lazy : bool;
-  q_excl : bool
+  q_excl : bool;
+  q_extra : list (str * value)      (* constants registered on THIS generator by AddConstant before the program was
+                                       generated (newest first) - the state of the generator in a history *)
 }.
 
 Definition c16_tuple := (list value * iout * iout)%type.   (* [map], GenerateWithMap optimizer off, on *)
@@ -49,6 +51,7 @@ Definition c16_case := (N * c16_in * (option xast * option xast * list c16_tuple
 Definition c16_id (c : c16_case) : N := fst (fst c).
 
 Definition base_chain (i : c16_in) : P2.Syn.Parse.idents :=
+  map (fun nv => P2.Syn.Parse.id_constant (fst nv) (99 :: 58 :: fst nv)) (q_extra i) ++
   map P2.Syn.Parse.id_function (q_funcs i) ++
   map (fun n => P2.Syn.Parse.id_constant n (99 :: 58 :: n)) (q_consts i).
 
@@ -57,6 +60,11 @@ Definition chain_wm (i : c16_in) : P2.Syn.Parse.idents :=
   [P2.Syn.Parse.SArgs [q_m i]; P2.Syn.Parse.SMap (q_m i)] ++ base_chain i.
 Definition chain_pl (i : c16_in) : P2.Syn.Parse.idents :=
   [P2.Syn.Parse.SArgs [q_m i]] ++ base_chain i.
+
+(* S: the reference semantics of the qualified tree; the map argument shadows the constants, constants registered
+   later shadow earlier ones *)
+Definition spec_out_h (i : c16_in) (args : list value) : res value :=
+  Ref.eval value_methods c01_fuel (combine [q_m i] args ++ q_extra i ++ consts) (q_T i).
 
 Definition toks_of (l : list (N * str)) : list P2.Syn.Parse.tk := map (fun p => (ttype_of_N (fst p), snd p)) l.
 
@@ -94,7 +102,7 @@ Definition c16_is (c : c16_case) : bool :=
   (q_excl i ||
    forallb (fun t : c16_tuple =>
               let '(args, ioff, ion) := t in
-              let s := spec_out (q_T i) [q_m i] args in
+              let s := spec_out_h i args in
               verdict_ok (compare_out (q_lazy i) s ioff) && verdict_ok (compare_out (q_lazy i) s ion)) tuples).
 
 (* counts for the evidence: tuples where the reference semantics really was compared / unsupported / out of fuel *)
@@ -104,6 +112,6 @@ Definition c16_stats (cases : list c16_case) : list N :=
                         let '(_, _, tuples) := snd c in
                         if q_excl i then [] else
                         map (fun t : c16_tuple => let '(args, ioff, _) := t in
-                                                  compare_out (q_lazy i) (spec_out (q_T i) [q_m i] args) ioff) tuples) cases in
+                                                  compare_out (q_lazy i) (spec_out_h i args) ioff) tuples) cases in
   [N.of_nat (length (filter is_agree vs)); N.of_nat (length (filter is_unsup vs));
    N.of_nat (length (filter is_oof vs)); N.of_nat (length (filter is_lazy vs))].
